@@ -184,6 +184,8 @@ def translate_c_to_sympy(source_circuit):
             gate = copy(gate)  # the source circuit keeps its string parameter
             gate.parameter = symbols(gate.parameter, real=True)
 
+        if gate.control is not None and len(gate.control) > 1:
+            raise ValueError(f"Multi-controlled gate '{gate.name}' not supported on backend SYMPY")
         if gate.name in {"H", "X", "Y", "Z"}:
             target_circuit *= GATE_SYMPY[gate.name](gate.target[0])
         elif gate.name in {"T", "S"} and gate.parameter == "":
